@@ -1,5 +1,7 @@
 package main
 
+import "fmt"
+
 // net/http.Header as a plain map with caller-supplied canonical keys.
 
 func init() {
@@ -45,5 +47,69 @@ func init() {
 			fr.e.mapDelete(m, args[1])
 		}
 		return nil
+	})
+}
+
+func init() {
+	// (*http.Request).Cookie: "name=value" pairs in the single Cookie header value
+	reg("(*net/http.Request).Cookie", func(fr *frame, args []Value) Value {
+		e := fr.e
+		r := (*fr.derefArg(args[0], "Request.Cookie")).(Struct)
+		rt := e.namedType("net/http", "Request")
+		hdr, _ := (*getField(r, rt, "Header")).(*MapV)
+		name := args[1].(Str)
+		noCookie := func() Value {
+			return Tuple{(*Value)(nil), e.newErrorString(e.strConst("http: named cookie not present"))}
+		}
+		i := e.mapFind(hdr, e.strConst("Cookie"))
+		if i < 0 {
+			return noCookie()
+		}
+		vs := hdr.vals[i].(Slice)
+		if len(vs.a) == 0 {
+			return noCookie()
+		}
+		line := vs.a[0].(Str)
+		prefix := append(append([]*Term{}, name.b...), e.tt.BV(8, '='))
+		if len(line.b) < len(prefix) || !e.branch(e.matchAt(line.b, prefix, 0)) {
+			return noCookie()
+		}
+		val := line.b[len(prefix):]
+		// value ends at ';' if any
+		for j, c := range val {
+			if e.branch(e.tt.Eq(c, e.tt.BV(8, ';'))) {
+				val = val[:j]
+				break
+			}
+		}
+		ct := e.namedType("net/http", "Cookie")
+		ck := e.zero(ct).(Struct)
+		setField(ck, ct, "Name", name)
+		setField(ck, ct, "Value", Str{val})
+		var cell Value = ck
+		return Tuple{&cell, Iface{}}
+	})
+	// BasicAuth: arbitrary decoded user/password (base64 decoding is not the subject)
+	reg("(*net/http.Request).BasicAuth", func(fr *frame, args []Value) Value {
+		e := fr.e
+		mk := func(name string) Str {
+			n := e.forkRange(e.freshVar(name+".len", 64), 0, 3)
+			b := make([]*Term, n)
+			for i := range b {
+				b[i] = e.freshVar(fmt.Sprintf("%s.%d", name, i), 8)
+			}
+			return Str{b}
+		}
+		return Tuple{mk("basicauth.user"), mk("basicauth.pass"), e.freshVar("basicauth.ok", 0)}
+	})
+	reg("net/http.SetCookie", func(fr *frame, args []Value) Value { return nil })
+	reg("github.com/safing/portbase/rng.Bytes", func(fr *frame, args []Value) Value {
+		e := fr.e
+		n := int(e.concretize(args[0].(*Term), "rng.Bytes n"))
+		a := make([]Value, n)
+		for i := range a {
+			a[i] = e.tt.BV(8, 0)
+		}
+		return Tuple{Slice{a}, Iface{}}
 	})
 }
